@@ -22,7 +22,8 @@ def make(pid, macro, profile, idx, seed, faults=True):
     for b, d in enumerate(profile):
         for s in range(1, d):
             styles[(b, s)] = "amap" if is_async else ("then" if carrier == "raw" else ["and_then", "then"][(idx + b + s) % 2])
-    pp = PP(macro, profile, carrier=carrier, can_fail=False, styles=styles, gates=1 if is_async else None)
+    captures = {(b, s) for b, d in enumerate(profile) for s in range(1, d) if (b + s + idx) % 2 == 0}
+    pp = PP(macro, profile, carrier=carrier, can_fail=False, styles=styles, gates=1 if is_async else None, captures=captures)
     pp.gate_steps = {0}
     seen = "k_fault_seen()" if is_async else "t_fault_seen()"
     injected = "k_faulted()" if is_async else "t_faulted()"
@@ -34,6 +35,9 @@ def make(pid, macro, profile, idx, seed, faults=True):
         for s in range(1, d):
             e = E(b, s, 0) if is_async else E(b, s)
             text = text.replace("ev(%d); " % e, "ev(%d); %s" % (e, mon), 1)
+            if (b, s) in captures:
+                # block captures of a later step are evaluated on the caller before the step starts: not after a failed join either
+                text = text.replace("ev(%d); " % CAP(b, s), "ev(%d); %s" % (CAP(b, s), mon), 1)
     L = ["names_off();", "k_enable_faults();" if is_async else "t_enable_faults();"] if faults else ["names_off();"]
     L.append(pp.decls())
     if is_async:
